@@ -629,6 +629,38 @@ pub fn surface(sim: &Sim, mark: &ForkMark) -> Surface {
 	s
 }
 
+/// What a mempool transaction spends apart from wallet outputs of any node (see [`surface`]).
+pub fn mempool_key(sim: &Sim, tx: &bitcoin::Transaction) -> String {
+	let wallets: Vec<bitcoin::ScriptBuf> = sim.w.nodes.iter().filter_map(|nd| lightning::util::wallet_utils::WalletSourceSync::get_change_script(&*nd.wallet_source).ok()).collect();
+	let mut ins: Vec<String> = vec![];
+	for inp in tx.input.iter() {
+		let prev_spk = sim.chain.seen.get(&inp.previous_output.txid).and_then(|t| t.output.get(inp.previous_output.vout as usize)).map(|o| o.script_pubkey.clone());
+		if prev_spk.map(|s| wallets.contains(&s)).unwrap_or(false) {
+			continue;
+		}
+		ins.push(format!("{}", inp.previous_output));
+	}
+	ins.sort();
+	format!("spends[{}]", ins.join(","))
+}
+
+/// The miner of the twin worlds: candidates for the next block are the transactions present (by what they
+/// spend) in both mempools, in the same order. Transactions only one world broadcast belong to the accepted
+/// asymmetries (stale / regenerated fee-bumping; anything else was already reported as a broadcast difference
+/// before a block is mined) and must not make the two chains diverge.
+pub fn align_mempools(a: &mut Sim, b: &mut Sim) {
+	let ka: Vec<String> = a.chain.mempool.iter().map(|t| mempool_key(a, t)).collect();
+	let kb: Vec<String> = b.chain.mempool.iter().map(|t| mempool_key(b, t)).collect();
+	for (sim, mine, other) in [(&mut *a, &ka, &kb), (&mut *b, &kb, &ka)] {
+		let mut keyed: Vec<(String, bitcoin::Transaction)> = mine.iter().cloned().zip(sim.chain.mempool.drain(..)).filter(|(k, _)| other.contains(k)).collect();
+		// one transaction per key (replacements of the same claim: keep the first broadcast)
+		let mut seen = std::collections::BTreeSet::new();
+		keyed.retain(|(k, _)| seen.insert(k.clone()));
+		keyed.sort_by(|x, y| x.0.cmp(&y.0));
+		sim.chain.mempool = keyed.into_iter().map(|(_, t)| t).collect();
+	}
+}
+
 fn multiset_minus(a: &[String], b: &[String]) -> Vec<String> {
 	let mut rest: Vec<String> = b.to_vec();
 	let mut out = vec![];
